@@ -117,6 +117,8 @@ def check_read_conf(ctx, rng):
             os.makedirs(os.path.join(os.path.dirname(c), 'relstore'), exist_ok=True)      # relative to each conf file
             os.makedirs(os.path.join(os.path.dirname(c), 'relstore', 'ndnsec-key-file'), exist_ok=True)
         os.makedirs(os.path.join(cwd, 'cwdstore'))
+        dotfile = os.path.join(root, 'dotfiles', 'ndn', 'client.conf')
+        os.makedirs(os.path.join(os.path.dirname(dotfile), 'relstore', 'ndnsec-key-file'))       # decoy beside the link target
         # decoys: plausible places that exist but that no rule of the statement selects (a key directory beside a relocated
         # public-information store, stores next to the working directory)
         for d in (os.path.join(abs_pib, 'ndnsec-key-file'), os.path.join(cwd, 'cwdstore', 'ndnsec-key-file'), os.path.join(cwd, 'ndnsec-key-file'),
@@ -184,8 +186,16 @@ def check_read_conf(ctx, rng):
                         text = render(fkeys, loc_kind, style, variant)
                     else:
                         text = 'transport=tcp://decoy:1\npib=pib-sqlite3:/decoy\ntpm=tpm-file:/decoy\n'
-                    with open(c, 'w') as f:
-                        f.write(text)
+                    if i == 0 and ci % 4 == 1:
+                        # the per-user file is a symbolic link into another directory (dotfiles manager): "that file's directory" is
+                        # where the candidate path lies; the link target's directory holds a decoy store of the same relative name
+                        with open(dotfile, 'w') as f:
+                            f.write(text)
+                        os.symlink(dotfile, c)
+                        ctx.event('candidate-file-is-a-symlink')
+                    else:
+                        with open(c, 'w') as f:
+                            f.write(text)
                     # contents change from configuration to configuration while path, size class and timestamps may not
                     # (files installed with preserved timestamps): the result must depend on the contents only
                     os.utime(c, (1_600_000_000, 1_600_000_000))
@@ -211,7 +221,8 @@ def check_read_conf(ctx, rng):
                 ctx.report(f'read-client-conf-raises:{type(e).__name__}@{raising_site(e)[0]}', f'{e!r}', w)
                 continue
             _hook_on[0] = False
-            opened = [p for p in OPEN_LOG if p in all_user_cands + sys_cands]
+            real_cands = {os.path.realpath(c_) for c_ in all_user_cands + sys_cands if os.path.lexists(c_)}
+            opened = [os.path.realpath(p) for p in OPEN_LOG if os.path.realpath(p) in real_cands]      # whichever spelling of the path was opened
             ctx.case((envs, layout, fkeys, loc_kind, style), nontrivial=bool(envs or (layout and fkeys)),
                      sample=dict(w, result=got) if ci % 400 == 0 else None)
             ctx.event('configuration')
@@ -220,7 +231,7 @@ def check_read_conf(ctx, rng):
                     src = 'env' if k in env else 'file' if (layout and k in fkeys) else 'default'
                     ctx.report(f'conf-value-differs:{k}:expected-from-{src}', f'{k}: got {got.get(k)!r}, expected {exp[k]!r}',
                                dict(w, got=got, expected=exp))
-            should_open = [conf_path] if conf_path else []
+            should_open = [os.path.realpath(conf_path)] if conf_path else []
             if opened != should_open:
                 ctx.report('conf-files-opened', f'opened {[os.path.relpath(p, root) for p in opened]}, only the first existing candidate may be read', w)
             else:
@@ -326,7 +337,7 @@ def run(ctx):
     check_read_conf(ctx, rng)
     check_faces(ctx, rng)
     check_keychain(ctx, rng)
-    for k in ('home-0', 'home-1', 'home-2', 'configuration', 'audit-open-checked', 'face-uri-supported', 'face-uri-unsupported', 'keychain', 'store-scheme-refused'):
+    for k in ('candidate-file-is-a-symlink', 'home-0', 'home-1', 'home-2', 'configuration', 'audit-open-checked', 'face-uri-supported', 'face-uri-unsupported', 'keychain', 'store-scheme-refused'):
         ctx.need_event(k)
     ctx.assumptions = ['the candidate file list of the platform is redirected into the sandbox (harness wrapper); the layering logic is the library\'s',
                        'platform default store locations exist in the sandbox HOME', 'values with %, more than one colon, or duplicate keys are outside the generated domain']
